@@ -61,15 +61,21 @@ def schedules(ck, cfgs):
             if k not in seen:
                 seen.add(k)
                 scheds.append(d)
-    spath = os.path.join(ck.work, "gen-schedules.ndjson")
-    vlib.write_ndjson(spath, scheds)
-    path = os.path.join(ck.work, "gensched-trace.ndjson")
-    ck.harness(["gen-sched", "--schedules", spath, "--first-run", 1000000, "--out", path], timeout=3000)
-    ck.validate_runs("ec/Trace_Generation", "ec/Trace_Generation.cfg", path, sig, what,
-                     regen=lambda ev: {"schedules": True, "run": ev.get("run")}, timeout=3000)
+    evs = []
+    CH = 2000       # schedules per harness run / TLC validation (the whole thorough trace does not fit TLC's heap at once)
+    for lo in range(0, len(scheds), CH):
+        spath = os.path.join(ck.work, f"gen-schedules-{lo}.ndjson")
+        vlib.write_ndjson(spath, scheds[lo:lo + CH])
+        path = os.path.join(ck.work, f"gensched-trace-{lo}.ndjson")
+        ck.harness(["gen-sched", "--schedules", spath, "--first-run", 1000000 + 2 * lo, "--out", path], timeout=3000)
+        ck.validate_runs("ec/Trace_Generation", "ec/Trace_Generation.cfg", path, sig, what,
+                         regen=lambda ev: {"schedules": True, "run": ev.get("run")}, timeout=3000)
+        for e in vlib.read_ndjson(path):
+            if e.get("ev") == "reset" and "sched" in e:
+                e["sched"] += lo
+            evs.append(e)
     # which schedules did the real step follow?  (observed start / end order == the schedule, possibly
     # followed by optional calls the schedule did not have)
-    evs = vlib.read_ndjson(path)
     runs = {}
     for e in evs:
         runs.setdefault(e.get("run"), []).append(e)
